@@ -23,6 +23,8 @@ func main() {
 		cmdWin(os.Args[2:])
 	case "seq":
 		cmdSeq(os.Args[2:])
+	case "cond":
+		cmdCond(os.Args[2:])
 	default:
 		fmt.Fprintln(os.Stderr, "unknown subcommand", os.Args[1])
 		os.Exit(2)
@@ -150,4 +152,35 @@ func cmdSeq(args []string) {
 	}
 	of.Close()
 	fmt.Printf("RAN scenarios=%d inconclusive=%d\n", len(scs), nInc)
+}
+
+func cmdCond(args []string) {
+	fs := flag.NewFlagSet("cond", flag.ExitOnError)
+	scen := fs.String("scen", "", "scenario ndjson file")
+	out := fs.String("out", "", "trace ndjson output")
+	fs.Int("par", 16, "unused")
+	fs.Parse(args)
+	f, err := os.Open(*scen)
+	if err != nil {
+		fatal(err)
+	}
+	of, err := os.Create(*out)
+	if err != nil {
+		fatal(err)
+	}
+	rd := bufio.NewScanner(f)
+	rd.Buffer(make([]byte, 1<<20), 1<<26)
+	n := 0
+	for rd.Scan() {
+		var sc drv.CondScenario
+		if err := json.Unmarshal(rd.Bytes(), &sc); err != nil {
+			fatal(err)
+		}
+		if err := drv.WriteTrace(of, drv.RunCond(sc)); err != nil {
+			fatal(err)
+		}
+		n++
+	}
+	of.Close()
+	fmt.Printf("RAN scenarios=%d inconclusive=0\n", n)
 }
